@@ -60,6 +60,21 @@ CHECKS = {
             'construct_kernel replaced (inside the checker) by recorders; the linearised call tree must equal the reference translation of the listing (gate table, cz + barrier + two phase updates, '
             'wait duration, block position and multiplicity) and exporting twice must give the same names. Thorough tier: the recorder is bound to real OpenQL by compiling a fixed family and parsing the cQASM.',
             'bounded program spaces; recording stand-in for the OpenQL platform (validated against real OpenQL in the thorough tier)'),
+    'C12': (EX, '4/C12', 'exhaustive enumeration of experiment descriptions vs reference cycle layout',
+            'All lists of distinct round counts from {0..4} (thorough {0..6}) in any order x heralded on/off x repetitions 1..3 x five qubit sets: kernel spans, contiguity, every index '
+            'category of every involved (and an uninvolved) qubit compared with the reference layout, plus disjointness, containment, coverage with the documented missing slot, translation by the '
+            'cycle length and the repetition estimate.',
+            'finite input box; reference layout mc/ref/kernel.py'),
+    'C18': (MC, '4/C18', 'explicit-state exploration of build programs x drawing settings, spies on the visual description and pivots',
+            'Every class alone and all flat programs of length <= 2 over 15 atoms are drawn under every permutation of every prefix of the occupied channels x three label maps x compact / non-compact x '
+            'two global configurations; all flat programs of length <= 2 over all classes and nested programs (as built and unrolled) under one or two settings. Rows, x = reported start under the durations in '
+            'force for the drawing, figure width, labels, rejection of unknown channels and the full observation vector before/after each drawing are checked.',
+            'bounded program spaces; positions observed through harness-side spies; cosmetic offsets not judged; drawing-as-deviation histories are explored by C03'),
+    'C19': (EX, '4/C19', 'exhaustive enumeration of finite relations',
+            'All ordered triples of channel identifiers over 3 qubits x 4 channels (==, !=, symmetry, membership), all ordered pairs of 21 qubit names and all ordered pairs of edges over them '
+            '(equality, symmetry, hash consistency, set behaviour), unique_in_order on all sequences up to length 6 over 3 letters and on edge sequences with reversed duplicates; identifier part '
+            'repeated in fresh interpreters under three more PYTHONHASHSEED values.',
+            'finite domains as listed; self-loop edges excluded'),
 }
 
 
